@@ -227,6 +227,106 @@ Theorem c07_finite_range_encode_total :
 Proof. exact fr_map_to_int_total. Qed.
 Print Assumptions c07_finite_range_encode_total.
 
+(* ---- whole configuration spaces, stated on the DOMAIN CONSTRUCTORS ------------------------------ *)
+(* END TO END: take any configuration space of legal domains (every constructor; [dom_wf]: lower <=
+   upper, non-empty categories, size >= 1), with any active_config_space the encoder accepts, and
+   let make_hyperparameter_ranges build its ranges ([space_ranges]).  Then every vector of the unit
+   cube of the advertised size decodes, and every decoded value is a member of ITS DOMAIN in the
+   sense of Domain.is_valid with the right type (`in values` for finite ranges) — for every
+   scaling functions. *)
+Theorem c07_decode_member_domains :
+  forall eps sc_log sc_rev ds hs v,
+    0 <= eps -> Forall (fun p : domain * option domain => dom_wf (fst p)) ds ->
+    space_ranges eps sc_log sc_rev ds = Some hs -> length v = space_size hs -> Forall unit_itv v ->
+    exists xs, space_from_nd eps hs v = Some xs /\
+               Forall2 (fun (p : domain * option domain) x => dom_member sc_log (fst p) x = true) ds xs.
+Proof. exact decode_member_domains. Qed.
+Print Assumptions c07_decode_member_domains.
+
+Example c07_decode_member_domains_example :
+  let eps := 1 # 100000000 in
+  let ds := [(DInteger 1 10 SUniform, Some (DInteger 3 5 SUniform));
+             (DCategorical [VS 0; VS 1; VS 2] SUniform, Some (DCategorical [VS 1; VS 2] SUniform));
+             (DFiniteRange 0 1 5 false true, None); (DOrdinalNN [VI 5] false, None)] in
+  Forall (fun p : domain * option domain => dom_wf (fst p)) ds /\
+  exists hs, space_ranges eps Domain.linear Domain.linear ds = Some hs /\ space_size hs = 6%nat.
+Proof.
+  cbv zeta. split; [repeat constructor; simpl; try lia; try discriminate; try lra|].
+  eexists. split; [vm_compute; reflexivity | reflexivity].
+Qed.
+
+(* get_ndarray_bounds of a whole space (no fixed last position): EVERY vector inside the returned
+   bounds decodes, attribute by attribute, into the active sub-range ([hp_act]: active interval for
+   continuous / integer ranges, active categories for one-hot, binary and ordinal-equal ranges; the
+   whole range where no active range is set).  Scalar ranges: linear scaling (log / reverse-log: over
+   R below).  NOT covered: the active choices of a nearest-neighbour ordinal (only membership). *)
+Theorem c07_active_range_space :
+  forall eps hs b v ys, 0 < eps < 1 # 2 -> Forall (fun h => hp_wf h /\ hp_act_ok eps h) hs ->
+    space_bounds eps hs None = Some b -> in_bounds b v = true ->
+    space_from_nd eps hs v = Some ys -> Forall2 hp_act hs ys.
+Proof. exact space_active. Qed.
+Print Assumptions c07_active_range_space.
+
+Example c07_active_range_space_example :
+  let eps := 1 # 100000000 in
+  let hs := [HInt {| i_lo := 1; i_hi := 10; i_sc := Domain.linear; i_alo := 3; i_ahi := 5 |};
+             HOneHot [VS 0; VS 1; VS 2] (Some [VS 1; VS 2])] in
+  Forall (fun h => hp_wf h /\ hp_act_ok eps h) hs /\
+  exists b, space_bounds eps hs None = Some b /\ in_bounds b [1 # 4; 0; 0; 0] = true /\
+            space_from_nd eps hs [1 # 4; 0; 0; 0] = Some [VI 3; VS 1].
+Proof.
+  cbv zeta. split; [repeat constructor; simpl; try lia; try discriminate|].
+  eexists. split; [vm_compute; reflexivity|]. split; vm_compute; reflexivity.
+Qed.
+
+(* fixed last position (name_last_pos + value_for_last_pos): get_ndarray_bounds replaces EVERY
+   coordinate of the last block by (t, t), t the encoding of the fixed value ... *)
+Theorem c07_fixed_last_bounds_shape :
+  forall eps hs h rest x e b', rev hs = h :: rest -> hp_to_nd eps h x = Some e ->
+    space_bounds_all eps hs = Some b' ->
+    space_bounds eps hs (Some x) = Some (firstn (length b' - length e) b' ++ map (fun t => (t, t)) e).
+Proof. exact space_bounds_fixed_shape. Qed.
+Print Assumptions c07_fixed_last_bounds_shape.
+
+(* ... and every vector inside such a pinned block decodes to value_for_last_pos: continuous and
+   integer ranges (linear scaling), finite ranges, one-hot blocks of ANY size (all coordinates must
+   be pinned: with only the final coordinate pinned this is false), binary and ordinal-equal ranges.
+   NOT covered: nearest-neighbour ordinals; the composition with the other attributes of the space
+   (their part of the vector is covered by c07_active_range_space) is not stated as one theorem. *)
+Theorem c07_fixed_last_block_decodes :
+  forall eps h x e w y, 0 < eps < 1 # 2 -> hp_rt_ok eps h -> hp_fix_ok eps h -> hp_rt_member h x ->
+    hp_to_nd eps h x = Some e -> in_bounds (map (fun t => (t, t)) e) w = true ->
+    hp_from_nd eps h w = Some y -> val_equiv x y.
+Proof. exact fixed_block_decodes. Qed.
+Print Assumptions c07_fixed_last_block_decodes.
+
+Example c07_fixed_last_example :
+  let eps := 1 # 100000000 in
+  let h := HOneHot [VS 0; VS 1; VS 2] None in
+  hp_rt_ok eps h /\ hp_fix_ok eps h /\ hp_rt_member h (VS 0) /\ hp_to_nd eps h (VS 0) = Some [1; 0; 0] /\
+  in_bounds (map (fun t => (t, t)) [1; 0; 0]) [1; 0; 0] = true /\
+  (* with only the FINAL coordinate pinned, [0; 1; 0] would be inside the bounds and decode to VS 1 *)
+  in_bounds [(0, 1); (0, 1); (0, 0)] [0; 1; 0] = true /\ hp_from_nd eps h [0; 1; 0] = Some (VS 1).
+Proof. cbv zeta. repeat split; try exact I; vm_compute; reflexivity. Qed.
+
+(* a whole configuration space (domains and constants) written to its JSON form and read back is
+   EQUAL, hence its ranges (its encoding) are identical *)
+Theorem c07_json_roundtrip_space :
+  forall base cs, 0 < base -> cs_json_ok cs ->
+    cs_json_roundtrip base cs = Some cs /\
+    forall cs', cs_json_roundtrip base cs = Some cs' ->
+      forall eps sl sr, space_ranges eps sl sr (cs_domains cs') = space_ranges eps sl sr (cs_domains cs).
+Proof.
+  intros base cs Hb Hok. pose proof (cs_json_roundtrip_ok base cs Hb Hok) as E.
+  split; [exact E|]. intros cs' E'. rewrite E in E'. injection E' as <-. reflexivity.
+Qed.
+Print Assumptions c07_json_roundtrip_space.
+
+Example c07_json_roundtrip_space_example :
+  cs_json_ok [(0%Z, EDom (DFloat 0 (1 # 2) (SQuant SRevLog (1 # 10)))); (1%Z, EConst (VS 7));
+              (2%Z, EDom (DOrdinalNN [VI 1; VI 2; VI 5] true))].
+Proof. repeat constructor; simpl; try lra; try exact I; reflexivity. Qed.
+
 (* ======================================================================================== *)
 (* The same statements over the Coq REALS, where LogScaling (ln / exp) and ReverseLogScaling
    (-ln(1-x) / 1-exp(-y)) are instances of the scaling record (model/DomainR.v: the definitions
